@@ -447,6 +447,14 @@ func runMCPApply(res *Result, env *mcpEnv, variant string, add func(rule, loc, f
 	case "upsert_foreign_route":
 		// management upsert naming a route that does not exist: refused, nothing written
 		wantWrite = false
+	case "reload_unverifiable":
+		// write_and_reload with content that compiles but whose admin token cannot
+		// be loaded by this process: the reload cannot be verified (the health
+		// probe cannot even be set up - no network is touched), so the call fails
+		// and the previous file has to be back
+		args["mode"] = "write_and_reload"
+		args["content"] = strings.Replace(good, "admin_api {\n  listen 127.0.0.3:0\n}", "admin_api {\n  listen 127.0.0.3:0\n  auth token \"file:/nonexistent/verif/admin-token\"\n}", 1)
+		wantWrite = false
 	}
 	fs := NewSimFS()
 	fs.AddExisting(env.cfgPath, env.cfgText)
@@ -481,6 +489,16 @@ func runMCPApply(res *Result, env *mcpEnv, variant string, add func(rule, loc, f
 	if !compiles(after) {
 		add("C20.apply.uncompilable", loc, "after config_apply (%s) the config file does not compile", variant)
 	}
+	if variant == "reload_unverifiable" {
+		if r, _ := resp["result"].(map[string]any); r != nil {
+			if sc, _ := r["structuredContent"].(map[string]any); sc != nil {
+				if ok, _ := sc["ok"].(bool); ok {
+					add("C20.apply.unverified_ok", loc, "config_apply write_and_reload reported ok although the reload could not be verified")
+				}
+			}
+		}
+		res.probe("apply.reload_unverifiable")
+	}
 	if wantWrite {
 		if isErrorResult(resp) {
 			add("C20.apply.refused", loc, "valid config_apply write_only was refused: %v", resp)
@@ -511,7 +529,7 @@ func EnumMCPCases() []*Program {
 			}
 		}
 	}
-	for _, v := range []string{"valid", "preview", "invalid_parse", "invalid_compile", "foreign_path", "foreign_path_traversal", "unknown_key", "unknown_mode", "upsert_foreign_route"} {
+	for _, v := range []string{"valid", "preview", "invalid_parse", "invalid_compile", "foreign_path", "foreign_path_traversal", "unknown_key", "unknown_mode", "upsert_foreign_route", "reload_unverifiable"} {
 		out = append(out, &Program{World: "mcp", Steps: []Step{{Op: "mcpapply", Reason: v}}})
 	}
 	return out
@@ -523,7 +541,7 @@ func init() {
 		Run: RunMCPProgram, Enum: EnumMCPCases,
 		Level:      "other",
 		NonTrivial: func(p *Program, r *Result) bool { return r.Ops >= 1 },
-		Rule:       "complete enumeration of the MCP gate table: 31 known + 4 unknown + 8 white-space-padded tool names x role {read, operate, admin} x --enable-mutations x --enable-runtime-control x principal {absent, present, blank} (36 server configurations x 43 names; a padded name is either refused as unknown without effect or held to the gate and audit duties of the tool it resembles; plus the foreign-actor variant of every allowed mutating tool) against the reference gate written from internal/mcp/spec.md; tools/list = allowed set; refused => queue listing and config directory unchanged; exactly one audit record with all seven fields per mutating call; plus 9 config_apply / management variants (valid write, preview, parse/compile-invalid content, foreign and traversing paths, unknown keys/modes) over simfs with every touched path logged; distinct = (server configuration) and (apply variant) cases",
+		Rule:       "complete enumeration of the MCP gate table: 31 known + 4 unknown + 8 white-space-padded tool names x role {read, operate, admin} x --enable-mutations x --enable-runtime-control x principal {absent, present, blank} (36 server configurations x 43 names; a padded name is either refused as unknown without effect or held to the gate and audit duties of the tool it resembles; plus the foreign-actor variant of every allowed mutating tool) against the reference gate written from internal/mcp/spec.md; tools/list = allowed set; refused => queue listing and config directory unchanged; exactly one audit record with all seven fields per mutating call; plus 10 config_apply / management variants (valid write, preview, parse/compile-invalid content, foreign and traversing paths, unknown keys/modes, write_and_reload whose reload cannot be verified: previous file back) over simfs with every touched path logged; distinct = (server configuration) and (apply variant) cases",
 		RealStub: map[string]string{
 			"mcp.Server (Serve loop, framing, callTool, gating, audit, config_apply, management tools, SQLite-mode queue tools)": "real, over in-memory pipes",
 			"MCP admin-proxy mode, write_and_reload, runtime-control beyond the gate":                                            "not exercised (private http.Transport with a real dialer / real processes); allowed runtime-control tools fail their set-up check (no --pid-file) after the gate, so no process is started",
